@@ -151,7 +151,7 @@ func runRxWindow(c *ctx) error {
 			handled = time.Since(start)
 		}
 		conclusive := ok && handled < window*6/10
-		if err := rig.waitQuiet(10 * time.Second); err != nil {
+		if err := rig.waitQuiet(30 * time.Second); err != nil {
 			c.res.Add(hx.Finding{Kind: "propfail", Engine: "rxwindow", Signature: "pipeline-stuck", Case: kase, Impl: err.Error(), Note: "C11: " + err.Error()})
 			cleanup()
 			continue
@@ -177,7 +177,7 @@ func runRxWindow(c *ctx) error {
 		pn := pkt(next, 1)
 		atomic.AddInt64(&rig.inflight, 1)
 		rig.fwd.out <- pn
-		if err := rig.waitQuiet(10 * time.Second); err != nil {
+		if err := rig.waitQuiet(30 * time.Second); err != nil {
 			c.res.Add(hx.Finding{Kind: "propfail", Engine: "rxwindow", Signature: "pipeline-stuck", Case: kase, Impl: err.Error(), Note: "C11: " + err.Error()})
 			cleanup()
 			continue
